@@ -1,0 +1,8 @@
+//go:build verif
+
+package syntax
+
+var verifNoRewrites bool
+
+// VerifSetRewrites enables or disables the semantics-preserving tree rewrites.
+func VerifSetRewrites(enabled bool) { verifNoRewrites = !enabled }
